@@ -55,3 +55,77 @@ def run(ctx):
     items = [o.get("item") for i, j, pl, rv, s in ibe.assigns() if rv["k"] == "binop" and rv["op"] == "Eq" for o in (rv["a"], rv["b"]) if o.get("k") == "const"]
     ctx.check(items == ["selium_protocol::error_codes::REPLIER_ALREADY_BOUND"], "C10.D2.client-agrees", "client:bind-error-code",
               "the client classifies exactly that code as the retryable 'replier already bound' condition", ibe.span)
+    client_sees_rejection(ctx, F)
+
+
+def client_sees_rejection(ctx, F):
+    """the rejection reaches the client's retry decision: wherever the client turns a Frame::Error into an error value it builds
+    OpenStream(<the frame's code>, ..) — the only shape is_recoverable_error looks into — and is_recoverable_error sends that code
+    through the bind-error test"""
+    FRAME, SE = "selium_protocol::frame::Frame", "selium_std::errors::SeliumError"
+    n = 0
+    # variants the retry decision accepts whatever they carry
+    ire0 = F.inlined(F.body("selium::keep_alive::helpers::is_recoverable_error"))
+    retryable = set()
+    for sw in K.find_variant_switches(ire0, SE):
+        arms, adt, pl, other, allv = K.arm_map(ire0, sw)
+        for v_, blocks in arms.items():
+            rets = [flow.const_of(rv["op"]) for i, j, pl_, rv, s_ in K.assigns_in(ire0, blocks) if pl_["l"] == 0 and not pl_["p"] and rv["k"] == "use"]
+            if rets and all(r is True for r in rets) and not [c for c in K.calls_in(ire0, blocks)]:
+                retryable.add(v_)
+    for p_, b0 in sorted(F.bodies.items()):
+        if b0.crate != "selium" or "{closure" in p_ and not any(bl["term"]["k"] == "yield" for bl in b0.blocks) and False:
+            continue
+        if not any(sw for sw in K.find_variant_switches(b0, FRAME)):
+            continue
+        b = F.inlined(b0)
+        for sw in K.find_variant_switches(b, FRAME):
+            arms, adt, pl, other, allv = K.arm_map(b, sw)
+            if "Error" not in arms:
+                continue
+            n += 1
+            ctx.touch(b0)
+            reg = arms["Error"]
+            # the payload's code field
+            ep = F.adt("selium_protocol::frame::ErrorPayload")
+            cidx = [f["name"] for f in ep["variants"][0]["fields"]].index("code")
+            def code_place(pl__):
+                return "ErrorPayload" in b.local_ty(pl__["l"]) and [e for e in pl__["p"] if isinstance(e, int)][-1:] == [cidx]
+            codes = set()
+            for i, j, pl_, rv, s_ in b.assigns():
+                o = rv.get("op") if rv["k"] == "use" else None
+                if o and o.get("k") in ("copy", "move") and code_place(o["pl"]):
+                    codes.add(pl_["l"])
+            # where the client distinguishes codes itself, only the path taken for REPLIER_ALREADY_BOUND matters here
+            rab = F.const_value("selium_protocol::error_codes::REPLIER_ALREADY_BOUND")
+            cv = flow.derived(b, codes, calls=()) if codes else set()
+            for i2 in sorted(reg):
+                t2 = b.blocks[i2]["term"]
+                if t2["k"] == "switch" and t2.get("discr_ty") == "u32" and (op_local(t2["discr"]) in cv or (t2["discr"].get("k") in ("copy", "move") and code_place(t2["discr"]["pl"]))):
+                    edge = dict((v_, tg) for v_, tg in t2["targets"]).get(rab, t2["otherwise"])
+                    reg = reg & flow.reach_avoiding(b, [edge], [i2])
+                    break
+            aggs = [(rv, s_) for i, j, pl_, rv, s_ in K.aggregates(b, SE, reg)]
+            bad = [(rv, s_) for rv, s_ in aggs if rv.get("variant") != "OpenStream" and rv.get("variant") not in retryable]
+            def from_code(o):
+                if o.get("k") not in ("copy", "move"):
+                    return False
+                if code_place(o["pl"]):
+                    return True
+                return o["pl"]["l"] in flow.derived(b, codes, calls=()) if codes else False
+            good = [rv for rv, s_ in aggs if (rv.get("variant") == "OpenStream" and rv.get("ops") and from_code(rv["ops"][0])) or rv.get("variant") in retryable]
+            ctx.check(bool(good) and not bad and len(good) == len(aggs), "C10.D2.client-sees-code", "client:error-frame-not-openstream:%s" % p_.split("selium::")[-1].split("::{")[0],
+                      "%s turns an error frame into OpenStream(<its code>, ..) on every path (found %s)" % (p_.split("::{")[0], sorted({rv.get("variant") for rv, _ in aggs}) or "nothing"),
+                      (bad or aggs or [(None, {"span": b0.span})])[0][1].get("span", b0.span))
+    ctx.floor("C10.D2.client-sees-code.sites", n, 2)
+    ire = F.inlined(F.body("selium::keep_alive::helpers::is_recoverable_error"))
+    ctx.touch(F.body("selium::keep_alive::helpers::is_recoverable_error"))
+    ok = False
+    for sw in K.find_variant_switches(ire, SE):
+        arms, adt, pl, other, allv = K.arm_map(ire, sw)
+        if "OpenStream" in arms:
+            for i, j, pl_, rv, s_ in K.assigns_in(ire, arms["OpenStream"]):
+                if rv["k"] == "binop" and rv["op"] == "Eq" and any(o.get("item") == "selium_protocol::error_codes::REPLIER_ALREADY_BOUND" for o in (rv["a"], rv["b"])):
+                    ok = True
+    ctx.check(ok, "C10.D2.client-agrees", "client:openstream-not-classified", "is_recoverable_error tests the code of an OpenStream error against REPLIER_ALREADY_BOUND", ire.span)
+
